@@ -1,7 +1,9 @@
 (** C14 - seqlock: property theorems (statements only; proofs live in Proof/).
-    [C_words] and [is_write_pending] are GENERATED from xenium/seqlock.hpp on every run. *)
+    [C_words] and [is_write_pending] are GENERATED from xenium/seqlock.hpp on every run;
+    [SeqlockDefs] is the step-level model tied to the code by trace correspondence. *)
 From Coq Require Import NArith List.
-From XV Require Import Base.Word gen.SeqlockGen Model.SeqlockDefs Proof.SeqlockWords.
+From XV Require Import Base.Word Conc.Lts Conc.Ev gen.SeqlockGen Model.SeqlockDefs Proof.SeqlockWords Proof.SeqlockInv.
+Import ListNotations.
 Local Open Scope N_scope.
 
 (** every byte of T is copied: the word count covers sizeof(T) (and wastes less than one word) *)
@@ -12,3 +14,75 @@ Print Assumptions C14_words_cover.
 Theorem C14_odd_is_write_pending : forall q, odd q = is_write_pending q.
 Proof. exact odd_is_write_pending. Qed.
 Print Assumptions C14_odd_is_write_pending.
+
+(** [Bnd st]: fewer than 2^62 values have been published (no counter wrap).
+    [cur st]: index of the latest published version.  [normw words v]: v cut / zero padded to [words] words. *)
+
+(** writers are mutually exclusive and the sequence word is twice the version (+1 while locked) *)
+Theorem C14_version_and_mutex : forall slots words func v0,
+  1 <= slots -> slots < 2 ^ 30 -> (1 <= words)%nat ->
+  forall st, reach (init v0) (step slots words func) st -> Bnd st ->
+  (((exists t, is_locked (th st t) = true) /\ seq st = 2 * cur st + 1) \/
+   ((forall t, is_locked (th st t) = false) /\ seq st = 2 * cur st)) /\
+  (forall t1 t2, is_locked (th st t1) = true -> is_locked (th st t2) = true -> t1 = t2) /\
+  (forall t q, lockq (th st t) = Some q -> q = 2 * cur st) /\
+  (forall t o q, th st t = AqCas o q -> q mod 2 = 0).
+Proof. exact seqlock_version. Qed.
+Print Assumptions C14_version_and_mutex.
+
+(** MAIN RESULT: for any number of readers and writers, any slot count, any word count, any update
+    functor and any schedule, a load returns exactly the complete value of ONE published version
+    (never a torn mixture), and that version is not newer than the current one *)
+Theorem C14_load_atomic : forall slots words func v0,
+  1 <= slots -> slots < 2 ^ 30 -> (1 <= words)%nat ->
+  forall st t q buf st' es r,
+  reach (init v0) (step slots words func) st -> Bnd st ->
+  th st t = Ld3 q buf ->
+  step slots words func st (Step t) = Some (st', es) ->
+  In (ERet t r) es ->
+  q mod 2 = 0 /\ q / 2 <= cur st /\ r = normw words (nth (N.to_nat (q / 2)) (g_hist st) []).
+Proof. exact seqlock_load_atomic. Qed.
+Print Assumptions C14_load_atomic.
+
+(** the version a load returns was the current one when the load (re)started its copy *)
+Theorem C14_load_version : forall slots words func v0,
+  1 <= slots -> slots < 2 ^ 30 -> (1 <= words)%nat ->
+  forall st a st' es t q,
+  reach (init v0) (step slots words func) st -> Bnd st ->
+  step slots words func st a = Some (st', es) -> rd_q (th st' t) = Some q ->
+  rd_q (th st t) = Some q \/
+  (a = Step t /\ q / 2 = cur st /\ g_hist st' = g_hist st /\ exists idx, th st' t = LdW q idx 0 []).
+Proof. exact seqlock_load_version. Qed.
+Print Assumptions C14_load_version.
+
+(** no lost update: the functor of update() is applied to the latest published value, under the lock *)
+Theorem C14_update_atomic : forall slots words func v0,
+  1 <= slots -> slots < 2 ^ 30 -> (1 <= words)%nat ->
+  forall st t q idx buf d,
+  reach (init v0) (step slots words func) st -> Bnd st ->
+  th st t = UpF q idx buf d ->
+  buf = normw words (nth (length (g_hist st) - 1) (g_hist st) []).
+Proof. exact seqlock_update_atomic. Qed.
+Print Assumptions C14_update_atomic.
+
+(** slot contents: each of the last [slots] versions is stored completely in its slot unless the lock
+    holder is overwriting exactly that slot *)
+Theorem C14_slot_content : forall slots words func v0,
+  1 <= slots -> slots < 2 ^ 30 -> (1 <= words)%nat ->
+  forall st k,
+  reach (init v0) (step slots words func) st -> Bnd st ->
+  k <= cur st -> cur st < k + slots ->
+  (cur st + 1 = k + slots -> forall t, wr words (th st t) = 0%nat) ->
+  forall i, (i < words)%nat -> data st (k mod slots) i = nth i (nth (N.to_nat k) (g_hist st) []) 0.
+Proof. exact seqlock_slot_content. Qed.
+Print Assumptions C14_slot_content.
+
+(** non-vacuity: a concrete run (2 slots, 2 words) reaches a state in which a reader is at its final
+    sequence check with a complete copy of version 1 *)
+Example C14_nonvacuous :
+  let func := fun (d : N) (b : list N) => map (fun x => x + d) b in
+  let acts := [Start 1%nat (OStore 7 [7; 8]); Step 1%nat; Step 1%nat; Step 1%nat; Step 1%nat; Step 1%nat; Step 1%nat; Step 1%nat;
+               Start 2%nat OLoad; Step 2%nat; Step 2%nat; Step 2%nat; Step 2%nat; Step 2%nat] in
+  let st := fst (fst (run (step 2 2%nat func) (init [1; 2]) acts)) in
+  th st 2%nat = Ld3 2 [7; 8] /\ g_hist st = [[1; 2]; [7; 8]].
+Proof. vm_compute. split; reflexivity. Qed.
